@@ -6,7 +6,13 @@ request  `F<v> <EmfCfg> | <GenEntry> | <trailer> [| <GenEntry> | <trailer>]*`
    `<v>` = `1` when the formatter validates (all three validations on), `0` when it skips them all;
    all steps run on ONE formatter state, in order.
    trailer tokens: `ft:<obstoken>=<hex text|nan>,…` (or `ft:-`), optional `io:<k>`, optional
-   `rate:<8 hex f32 bits>` (must be an invalid rate: `<= 0` or NaN).
+   `rate:<8 hex f32 bits>` (must be an invalid rate: `<= 0` or NaN; sampled formatters only),
+   optional `pre:<op>,<op>…` (pool operations before the step: `c<k>` clone formatter k — the clone is
+   appended to the pool —, `s<k>` / `g<k>` / `o<k>`: move formatter k into `with_sampling` /
+   `merge_globals` / `output_to`; all need a plain `Emf`), `on:<k>` (formatter that formats the step,
+   default 0), `m:<n>` (this step's multiplicity, sampled formatters only), `skip` (the step is not run
+   in the model, reply `skipped`), `panic:<item>:<site><k>` (the entry panics while item `item` is written,
+   see `Trailer.panic`; reply `panic 0 - j1 f1`, the formatter keeps the state `Emf.abortedCall`).
 reply    per step `<res> <nbytes> <lines> j<0|1> f<0|1>`, steps joined by ` | `:
    res = `ok` | `io` | `val:<kind*count,…>` (sorted); lines = `*` for `io`, else the sorted encodings of
    the complete lines (hex when <= 2048 bytes, `#<len>:<fnv1a64>` otherwise), `-` when none;
@@ -133,6 +139,34 @@ structure Trailer where
   io : Option Nat := none
   rate : Option Nat := none
   seenFt : Bool := false
+  /-- operations on the formatter pool executed before the step: `c<k>` clone formatter k (appended to
+  the pool), `s<k>` `with_sampling`, `g<k>` `merge_globals`, `o<k>` `output_to` on formatter k -/
+  pre : List (Char × Nat) := []
+  /-- the formatter of the pool that formats this step -/
+  on : Nat := 0
+  /-- multiplicity of this step (sampled formatters only) instead of the configuration's -/
+  m : Option Nat := none
+  /-- the step is not run in the model (entries with hundreds of thousands of observations); by
+  `c14_history_independent` the model's later answers do not depend on it -/
+  skip : Bool := false
+  /-- `panic:<item>:<site><k>`: the entry panics while item number `item` is written: site `w` in
+  `Entry::write` just before that item, `d` in the dimension iterator of that metric, `o` in its
+  observation iterator after it yielded `k` observations -/
+  panic : Option (Nat × Char × Nat) := none
+
+def parsePanic (s : String) : Option (Nat × Char × Nat) :=
+  match s.splitOn ":" with
+  | [item, sk] => do
+    let i ← item.toNat?
+    match sk.toList with
+    | c :: rest => (String.ofList rest).toNat?.map fun k => (i, c, k)
+    | [] => none
+  | _ => none
+
+def parseOp (s : String) : Option (Char × Nat) :=
+  match s.toList with
+  | c :: rest => (String.ofList rest).toNat?.map fun k => (c, k)
+  | [] => none
 
 def parseTrailer (s : String) : Option Trailer :=
   (s.splitOn " ").foldlM (fun (t : Trailer) tok =>
@@ -144,6 +178,12 @@ def parseTrailer (s : String) : Option Trailer :=
         match bs with
         | [a, b, c, d] => some { t with rate := some (((a * 256 + b) * 256 + c) * 256 + d) }
         | _ => none
+    else if tok.startsWith "pre:" then
+      (((tok.drop 4).toString.splitOn ",").mapM parseOp).map fun ops => { t with pre := ops }
+    else if tok.startsWith "on:" then (tok.drop 3).toNat?.map fun k => { t with on := k }
+    else if tok.startsWith "m:" then (tok.drop 2).toNat?.map fun k => { t with m := some k }
+    else if tok == "skip" then some { t with skip := true }
+    else if tok.startsWith "panic:" then (parsePanic (tok.drop 6).toString).map fun p => { t with panic := some p }
     else none) {}
 
 /-- `rate <= 0.0 || rate.is_nan()` on f32 bits -/
@@ -207,19 +247,56 @@ def observable (r : Result) (out : Out) (ft : List (String × Option Bytes)) : S
     | _ => lines.all accepts
   s!"{res} {out.bytes.length} {ls} j{if j then 1 else 0} f{if floatLaw ft then 1 else 0}"
 
-def runSteps (c : Consts) (mult : Option Nat) : State → List String → List String → Option (List String)
+/-- one formatter of the pool: its state and how it is wrapped (0 plain `Emf`, 1 `SampledEmf`,
+2 `merge_globals`, 3 `output_to`); cloning and wrapping need a plain `Emf` -/
+structure Slot where
+  st : State
+  kind : Nat
+
+/-- the entry `merge_globals` puts in front of every entry (the harness uses the same one) -/
+def globalItems : List Item := [.value (bytes! "VerifGlobal") (.str (bytes! "g"))]
+
+def applyOp (slots : Array Slot) (op : Char × Nat) : Option (Array Slot) := do
+  let sl ← slots[op.2]?
+  if sl.kind != 0 then none
+  match op.1 with
+  | 'c' => some (slots.push { st := sl.st.clone, kind := 0 })
+  | 's' => some (slots.set! op.2 { sl with kind := 1 })
+  | 'g' => some (slots.set! op.2 { sl with kind := 2 })
+  | 'o' => some (slots.set! op.2 { sl with kind := 3 })
+  | _ => none
+
+def runSteps (c : Consts) (mult : Option Nat) : Array Slot → List String → List String → Option (List String)
   | _, [], acc => some acc.reverse
   | _, [_], _ => none
-  | s, entry :: trailer :: rest, acc => do
+  | slots, entry :: trailer :: rest, acc => do
     let t ← parseTrailer trailer
     if !t.seenFt then none
-    let items ← ((entry.splitOn " ").filter (fun p => !p.isEmpty && p != "_")).mapM (parseItem t.ft)
-    let bad ← match t.rate with
-      | none => some false
-      | some bits => if mult.isSome && rateInvalid bits then some true else none
-    let call : Call := { items := items.flatten, mult := mult, badRate := bad, nowMs := 0, ioBudget := t.io }
-    let (s', r, out) := format c s call
-    runSteps c mult s' rest (observable r out t.ft :: acc)
+    let slots ← t.pre.foldlM applyOp slots
+    let sl ← slots[t.on]?
+    if t.skip then runSteps c mult slots rest ("skipped" :: acc)
+    else
+      let parsed ← ((entry.splitOn " ").filter (fun p => !p.isEmpty && p != "_")).mapM (parseItem t.ft)
+      if (t.m.isSome || t.rate.isSome) && sl.kind != 1 then none
+      let bad ← match t.rate with
+        | none => some false
+        | some bits => if rateInvalid bits then some true else none
+      let stepMult := if sl.kind == 1 then (match t.m with | some n => some n | none => mult) else none
+      let pre := if sl.kind == 2 then globalItems else []
+      -- (an invalid rate is rejected before the entry is written: no panic then)
+      if let (some (i, site, k), false) := (t.panic, bad) then
+        -- the entry panics: no `finish`, nothing written; the formatter keeps the partial state
+        let partialMetric ← if site == 'o' then
+            match parsed[i]? with
+            | some [.value name (.metric obs _ dims _)] => if k ≤ obs.length then some (some (name, obs.take k, dims)) else none
+            | _ => none
+          else if site == 'w' || site == 'd' then some none else none
+        let a : Aborted := { items := pre ++ (parsed.take i).flatten, partialMetric := partialMetric, mult := stepMult }
+        return ← runSteps c mult (slots.set! t.on { sl with st := abortedCall c sl.st a }) rest ("panic 0 - j1 f1" :: acc)
+      let items := pre ++ parsed.flatten
+      let call : Call := { items := items, mult := stepMult, badRate := bad, nowMs := 0, ioBudget := t.io }
+      let (s', r, out) := format c sl.st call
+      runSteps c mult (slots.set! t.on { sl with st := s' }) rest (observable r out t.ft :: acc)
 
 def handleF (validates : Bool) (body : String) : String :=
   match body.splitOn " | " with
@@ -227,7 +304,7 @@ def handleF (validates : Bool) (body : String) : String :=
     match parseCfg validates cfgS.trimAscii.toString with
     | some (cfg, mult) =>
       if steps.isEmpty then "bad-op"
-      else match runSteps (Consts.ofConfig cfg) mult (State.fresh cfg) steps [] with
+      else match runSteps (Consts.ofConfig cfg) mult #[{ st := State.fresh cfg, kind := if mult.isSome then 1 else 0 }] steps [] with
         | some obs => " | ".intercalate obs
         | none => "bad-op"
     | none => "bad-op"
